@@ -18,7 +18,9 @@ LEVEL_NOTE = "trusts pint to convert the harness' re-expressed magnitudes (same 
 RULE = ("Hypothesis draws a system spec, a mode (one input | all inputs) and for each chosen quantity input another unit "
         "of its family (B/kB/MB/GB/TB; ms/s/min/h/day/year; mW/W/kW; g/kg/t; g/kWh,kg/kWh,kg/MWh; kWh/GB,Wh/MB; W/TB,"
         "kW/PB; kg/TB,g/GB; h/day vs dimensionless; dimensionless vs percent; per-gpu variants). Oracle: "
-        "snapshot(build(spec)) == snapshot(build(spec')) for all calculated attributes (rtol 1e-9). Non-trivial = at "
+        "snapshot(build(spec)) == snapshot(build(spec')) for all calculated attributes (rtol 1e-9). In 40% of the cases "
+        "the re-expression is also applied to the live model (one assignment per input, or one grouped update, possibly "
+        "with a real change of another input at a drawn position) and compared with a fresh build. Non-trivial = at "
         "least one input re-expressed with a non-power-of-ten factor or a duration that is an exact number of hours.")
 ASSUMPTIONS = ["magnitudes are re-expressed with pint itself; the relative error of that conversion (~1e-16) is far "
                "below the comparison tolerance, except exactly at hour boundaries, which is what the check probes"]
